@@ -6,6 +6,34 @@ Open Scope Z_scope.
 
 Arguments exec : simpl never.
 Arguments check_assertion : simpl never.
+Arguments spec_check : simpl never.
+
+(* ---- the translated tables say what the documentation says ---- *)
+Lemma cpu_entries_doc : forall c, cpu_entries c = doc_cpu_entries c.
+Proof.
+  intro c. unfold cpu_entries, doc_cpu_entries. cbn [map app cpu_reg_syms cpu_flag_syms fst snd reg_value].
+  destruct (rP c) as [n v d i z cy]. cbn [fN fV fD fI fZ fC].
+  destruct n, v, d, i, z, cy; reflexivity.
+Qed.
+
+Lemma ram_fn_doc : forall m w r, ram_fn m w r = doc_ram_fn m w r.
+Proof. intros m w r. unfold ram_fn, doc_ram_fn, ram16_combine. destruct r as [[[z|s]|]|e|]; try reflexivity.
+  destruct w; [|reflexivity]. destruct (z mod 65536 =? 65535); [reflexivity|]. do 3 f_equal. apply Z.add_comm. Qed.
+
+Lemma eval_g_ext : forall rf rf' m en, (forall m w r, rf m w r = rf' m w r) ->
+  forall e, eval_g rf m en e = eval_g rf' m en e.
+Proof.
+  intros rf rf' m en H. fix IH 1. intro e. destruct e; cbn [eval_g]; try reflexivity.
+  - rewrite (IH e1), (IH e2). reflexivity.
+  - rewrite (IH e). reflexivity.
+  - destruct args as [|a [|b r]]; try reflexivity. rewrite H, (IH a). reflexivity.
+Qed.
+
+Lemma check_assertion_spec : forall c a, check_assertion c a = spec_check c a.
+Proof.
+  intros c a. unfold check_assertion, spec_check, assertion_value, eval_t, env_of, assertion_fail_value.
+  rewrite cpu_entries_doc. rewrite (eval_g_ext ram_fn doc_ram_fn _ _ ram_fn_doc). reflexivity.
+Qed.
 Arguments format_trace : simpl never.
 Arguments failure_message : simpl never.
 
@@ -16,7 +44,7 @@ Proof.
   induction els as [|e r IH]; cbn [fire_assertions asserts_at first_violation]; [reflexivity|].
   destruct e as [a|t]; [|exact IH].
   destruct (s_pc16 (a_snap a) =? pc); [|exact IH].
-  cbn [first_violation]. destruct (check_assertion c a); [exact IH|reflexivity|reflexivity].
+  cbn [first_violation]. rewrite <- check_assertion_spec. destruct (check_assertion c a); [exact IH|reflexivity|reflexivity].
 Qed.
 
 Lemma at_brk_end : forall c, (rd (rM c) (rPC c) =? end_of_test_opcode) = at_brk c.
@@ -73,7 +101,7 @@ Qed.
 Lemma first_violation_none : forall c l, first_violation c l = FNone <-> Forall (holds c) l.
 Proof.
   induction l as [|a r IH]; cbn [first_violation]; [split; [constructor|reflexivity]|].
-  unfold holds in *. destruct (check_assertion c a) eqn:E.
+  unfold holds in *. destruct (spec_check c a) eqn:E.
   - rewrite IH. split; [intro; constructor; assumption|intro F; inversion F; assumption].
   - split; [discriminate|intro F; inversion F; congruence].
   - split; [discriminate|intro F; inversion F; congruence].
@@ -83,7 +111,7 @@ Lemma first_violation_fail : forall c l a, first_violation c l = FFail a <-> fir
 Proof.
   induction l as [|b r IH]; intro a; cbn [first_violation].
   - split; [discriminate|]. intros (l1 & l2 & E & _). destruct l1; discriminate.
-  - unfold first_failing, holds, fails in *. destruct (check_assertion c b) eqn:E.
+  - unfold first_failing, holds, fails in *. destruct (spec_check c b) eqn:E.
     + rewrite IH. split.
       * intros (l1 & l2 & -> & F & Fa). exists (b :: l1), l2. repeat split; [constructor; assumption|assumption].
       * intros (l1 & l2 & El & F & Fa). destruct l1 as [|x l1]; cbn in El; inversion El; subst.
